@@ -24,7 +24,17 @@ ACCS = {
 def l_variants(acc, depth, rich):
     """value tuples for a full-field setup at loop depth `depth`"""
     nf = len(ACCS[acc]["fields"])
-    base = ["x", "y"]
+    if nf > 2:
+        # many-field accelerators: a few value patterns that overlap pairwise on different field subsets
+        def pat(atoms, shift=0):
+            return tuple(atoms[(j + shift) % len(atoms)] for j in range(nf))
+
+        out = [pat(["x"]), pat(["x", "y"]), pat(["y", "x", "x"])]
+        if depth >= 1:
+            out += [pat(["i", "y", "x"]), pat(["x", "y", "i"], 1)]
+        if depth >= 1 and rich:
+            out += [pat(["ix", "x"])]
+        return out
     if nf == 1:
         out = [("x",), ("y",)]
         if depth >= 1:
@@ -140,9 +150,10 @@ def from_json(x):
 
 
 class Emitter:
-    def __init__(self, accs=ACCS, field_type="i32", launch_vals=None, prethread=None):
-        self.accs = accs
+    def __init__(self, accs=None, field_type="i32", decls=""):
+        self.accs = accs if accs is not None else ACCS
         self.ft = field_type
+        self.decls = decls  # accfg.accelerator declarations (text) to put into the module
         self.n = 0
         self.lines = []
         self.nfor = 0
@@ -156,7 +167,7 @@ class Emitter:
     def emit(self, prog):
         body = []
         self._seq(prog, body, "  ", [])
-        args = ["%x : i32", "%y : i32"]
+        args = [f"%x : {self.ft}", f"%y : {self.ft}"]
         args += [f"%c{k} : i1" for k in range(self.nif)]
         for k in range(self.nfor):
             args += [f"%lb{k} : index", f"%ub{k} : index", f"%st{k} : index"]
@@ -164,7 +175,7 @@ class Emitter:
         text += "func.func private @opaque() -> ()\n"
         text += "func.func private @annotated() -> ()\n"
         text += "llvm.func @llvm_opaque()\n"
-        return "builtin.module {\n" + text + "}\n"
+        return "builtin.module {\n" + self.decls + text + "}\n"
 
     def _atom(self, a, ivs):
         if a in ("x", "y"):
@@ -187,8 +198,15 @@ class Emitter:
                 params = ", ".join(f'"{f}" = {self._atom(v, ivs)} : {self.ft}' for f, v in zip(fields, vals))
                 out.append(f'{ind}{st} = accfg.setup "{acc}" to ({params}) : !accfg.state<"{acc}">')
                 self.launch_id += 1
+                lnames, lvals, ltys = [], [], []
+                for lname, lit, lty in self.accs[acc].get("launch", ()):
+                    lv = self.fresh("lv")
+                    out.append(f"{ind}{lv} = arith.constant {lit} : {lty}")
+                    lnames.append(f'"{lname}"')
+                    lvals.append(lv)
+                    ltys.append(lty)
                 out.append(
-                    f'{ind}{tok} = "accfg.launch"({st}) <{{param_names = [], accelerator = "{acc}"}}> {{verif.id = {self.launch_id} : i32}} : (!accfg.state<"{acc}">) -> !accfg.token<"{acc}">'
+                    f'{ind}{tok} = "accfg.launch"({", ".join(lvals + [st])}) <{{param_names = [{", ".join(lnames)}], accelerator = "{acc}"}}> {{verif.id = {self.launch_id} : i32}} : ({", ".join(ltys + [f"!accfg.state<{chr(34)}{acc}{chr(34)}>"])}) -> !accfg.token<"{acc}">'
                 )
                 out.append(f'{ind}"accfg.await"({tok}) : (!accfg.token<"{acc}">) -> ()')
             elif k == "CALL":
@@ -210,8 +228,8 @@ class Emitter:
                     for nm, val in zip(names, s[2]):
                         out.append(f"{ind}{nm} = arith.constant {val} : index")
                     out.append(f"{ind}scf.for {iv} = {names[0]} to {names[1]} step {names[2]} {{")
-                out.append(f"{ind}  {ic} = arith.index_cast {iv} : index to i32")
-                out.append(f"{ind}  {ix} = arith.addi {ic}, %x : i32")
+                out.append(f"{ind}  {ic} = arith.index_cast {iv} : index to {self.ft}")
+                out.append(f"{ind}  {ix} = arith.addi {ic}, %x : {self.ft}")
                 self._seq(s[1], out, ind + "  ", ivs + [dict(i=ic, ix=ix, iv=iv)])
                 out.append(f"{ind}}}")
             elif k in ("IF", "IFP"):
@@ -220,9 +238,9 @@ class Emitter:
                     self.nif += 1
                 else:
                     one, par, c = self.fresh("one"), self.fresh("par"), self.fresh("pc")
-                    out.append(f"{ind}{one} = arith.constant 1 : i32")
-                    out.append(f"{ind}{par} = arith.andi {ivs[-1]['i']}, {one} : i32")
-                    out.append(f"{ind}{c} = arith.cmpi eq, {par}, {one} : i32")
+                    out.append(f"{ind}{one} = arith.constant 1 : {self.ft}")
+                    out.append(f"{ind}{par} = arith.andi {ivs[-1]['i']}, {one} : {self.ft}")
+                    out.append(f"{ind}{c} = arith.cmpi eq, {par}, {one} : {self.ft}")
                 out.append(f"{ind}scf.if {c} {{")
                 self._seq(s[1], out, ind + "  ", ivs)
                 if s[2] is not None:
